@@ -4,6 +4,8 @@ Decided: (FORMULA) the coefficients stored at S equal C_SS^-1 C_Sy, the intercep
 mse equals C_yy + b C b^T - 2 C_y. b^T with b the coefficients returned by regress(y, S) - as matrix
 normal forms over the reals; (WRITESET) the coefficient vector is zeros(p) written only at S; (NODEP) mse
 does not depend on the means (the intercept is discarded, self.mean is never read).
+Also decided: coefficients may be stored at a re-ordering of S when value and positions are in the same order; differing forms are
+refuted by exact rational evaluation at a point with S in cyclic order; (OWN) nothing passed in is written.
 Not decided: monotonicity / invariance corollaries; the LGANM causal link (a theorem on top of C01).
 """
 from .common import *
